@@ -18,8 +18,16 @@ from units import U
 
 ID = 'C13'
 LEVEL = 'proof'
-GEN_TIES = {'Rankscore': 'Props/GenTie_Rankscore.v'}
+GEN_TIES = {'Rankscore': 'Props/GenTie_Rankscore.v', 'Convert': 'Props/GenTie_Convert.v', 'ConvertPairs': 'Props/GenTie_ConvertPairs.v'}
 TIE = {'convert.py converters, vote.py subsetters': 'correspondence',
+       'convert.py ApprovalToSimpleVotes / RankedToFirstPreference / RankedToFirstNPreferences / RankedToPresenceCounts / RankedToApprovalVotes / '
+       'ScoreToApprovalVotesThreshold / InvertedSimpleVotes / InvertedApprovalVotes / VoteTotals .convert and util.add_dict_to_dict (bodies)':
+           'translator (tools/py2v.py part 6: the loops as folds, dictionary / set operations as Prelude/PyConv.v primitives, regenerated into Gen/Convert.v on '
+           'every run; Props/GenTie_Convert.v proves the generated functions equal - same keys in the same order, equal counts - to dconv img_* / inv_simple / '
+           'add_dict / vote_totals of Model/Convert.v, Convert2.v) + correspondence',
+       'convert.py RankedToCondorcetVotes.convert (body, both unranked_at_bottom settings)':
+           'translator (six nested loops, dynamically typed items with an exception flag, util.all_ranked_candidates as a function parameter; Gen/ConvertPairs.v; '
+           'Props/GenTie_ConvertPairs.v: raises nothing, result equal as a Python dictionary to dconv (img_condorcet bottom cands)) + correspondence',
        'component/rankscore.py Dowdall / Geometric / ModifiedBorda / FixedTop': 'translator (per-rank score expressions regenerated into Gen/Rankscore.v on '
                                                                                    'every run, Props/GenTie_Rankscore.v proves them equal to Model/Convert.v rank_scores) + correspondence',
        'component/rankscore.py select_padded / Borda.set_n_candidates / Borda.scores (initialised scorer) / SequenceBased.scores':
